@@ -403,7 +403,7 @@ func swapRegion(c *Ctx, rule string) {
 				okr = okr && isLoad && Dominates(ld, sw)
 			}
 			c.Ob(rule, name+"/"+a.what+"-receiver", cs[0].Pos(), okr, a.what+" is called on "+recv+" (expected the old transport captured before the swap / the new transport for Send)")
-			c.Ob(rule, name+"/"+a.what+"-in-region", cs[0].Pos(), li.HoldsW(cs[0].Instr, "s.transportMu") && SameRegion(li, sw, cs[0].Instr, "s.transportMu"), a.what+" must run inside the same write-locked region as the swap (else a concurrent Send overtakes the re-sent packets); held="+li.Held(cs[0].Instr).String())
+			c.Ob(rule, name+"/"+a.what+"-in-region", cs[0].Pos(), !cs[0].IsGo() && li.HoldsW(cs[0].Instr, "s.transportMu") && SameRegion(li, sw, cs[0].Instr, "s.transportMu"), a.what+" must run inside the same write-locked region as the swap (else a concurrent Send overtakes the re-sent packets); held="+li.Held(cs[0].Instr).String())
 			c.Ob(rule, name+"/"+a.what+"-after-swap", cs[0].Pos(), Dominates(sw, cs[0].Instr), a.what+" must follow the swap")
 			if a.what == "t.Send" {
 				c.Ob(rule, name+"/resend-every-non-noop", cs[0].Pos(), inLoop(cs[0].Instr.Block()) && (HasGuard(cs[0].Instr, `\(.*QueuedPackets\(\)\[.*\]\.Type != 6\)==true`) || HasGuard(cs[0].Instr, `\(.*QueuedPackets\(\)\[.*\]\.Type == 6\)==false`)) && func() bool {
